@@ -53,7 +53,7 @@ class ApiBox:
     def get(self, N, mtype, cpu, expand):
         k = (N, mtype, cpu, expand)
         if k not in self.ctx:
-            c = Ctx(self.lib, cpu=cpu, expand=expand, trusted=TRUSTED)
+            c = Ctx(self.lib, cpu=cpu, expand=bool(expand), trusted=TRUSTED, values=(expand == 'values'))
             c.mod = c.module(N, mtype)
             c.N = N
             c.sizecache = {}
